@@ -318,6 +318,20 @@ pub fn generate(tier: Tier, rng: &mut Rng) -> Vec<Case> {
             }
         }
     }
+    // \u / \U escapes at the edges of the surrogate gap and of the code space
+    for (cp, valid) in [(0xd7ffu32, true), (0xd800, false), (0xdbff, false), (0xdc00, false), (0xdfff, false), (0xe000, true), (0xe001, true), (0xfffd, true), (0xffff, true), (0x10000, true), (0x10ffff, true), (0x110000, false), (0x7fffffff, false), (0xffffffff, false)] {
+        for d in ["'", "\"", "'''", "\"\"\""] {
+            let want = match char::from_u32(cp) {
+                Some(c) if valid => want_str(&c.to_string()),
+                _ => REJECT.to_string(),
+            };
+            if cp <= 0xffff {
+                push(&mut out, &spec, format!("{d}\\u{cp:04x}{d}"), Some(want.clone()), vec!["escape", "u-edge"]);
+                push(&mut out, &spec, format!("{d}x\\u{cp:04X}y{d}"), Some(if valid { want_str(&format!("x{}y", char::from_u32(cp).unwrap())) } else { REJECT.to_string() }), vec!["escape", "u-edge"]);
+            }
+            push(&mut out, &spec, format!("{d}\\U{cp:08x}{d}"), Some(want.clone()), vec!["escape", "U-edge"]);
+        }
+    }
     // 3. malformed spellings must be compile errors
     for src in ["'\\q'", "'\\x4'", "'\\xg0'", "'\\u123'", "'\\U0000123'", "'\\8'", "'\\400'", "'\\ '", "'abc", "\"abc", "'''abc''", "'a\nb'", "\"a\rb\"", "b'\\u0041'", "b'\\q'", "'\\", "r'a", "'a'b'"] {
         push(&mut out, &spec, src.to_string(), Some(REJECT.to_string()), vec!["malformed"]);
